@@ -139,31 +139,31 @@ theorem depth_pos : ∀ c : Cond, 1 ≤ c.depth
   | .calledByGroup _ => by simp [Cond.depth]
 
 mutual
-theorem admit_iff : ∀ (c : Cond) (d : Nat), admit c d = true ↔ (c.depth ≤ d ∧ c.widthOk = true)
+theorem admits_iff : ∀ (c : Cond) (d : Nat), admits c d = true ↔ (c.depth ≤ d ∧ c.widthOk = true)
   | c, 0 => by
       have := depth_pos c
-      cases c <;> simp [admit] <;> omega
-  | .not c, d+1 => by simp [admit, Cond.depth, Cond.widthOk, admit_iff c d]
+      cases c <;> simp [admits] <;> omega
+  | .not c, d+1 => by simp [admits, Cond.depth, Cond.widthOk, admits_iff c d]
   | .and cs, d+1 => by
-      simp only [admit, Cond.depth, Cond.widthOk, Bool.and_eq_true, admitAll_iff cs d]
+      simp only [admits, Cond.depth, Cond.widthOk, Bool.and_eq_true, admitsAll_iff cs d]
       constructor
       · rintro ⟨hl, hd, hw⟩; exact ⟨by omega, hl, hw⟩
       · rintro ⟨hd, hl, hw⟩; exact ⟨hl, by omega, hw⟩
   | .or cs, d+1 => by
-      simp only [admit, Cond.depth, Cond.widthOk, Bool.and_eq_true, admitAll_iff cs d]
+      simp only [admits, Cond.depth, Cond.widthOk, Bool.and_eq_true, admitsAll_iff cs d]
       constructor
       · rintro ⟨hl, hd, hw⟩; exact ⟨by omega, hl, hw⟩
       · rintro ⟨hd, hl, hw⟩; exact ⟨hl, by omega, hw⟩
-  | .boolean _, d+1 => by simp [admit, Cond.depth, Cond.widthOk]
-  | .scriptHash _, d+1 => by simp [admit, Cond.depth, Cond.widthOk]
-  | .group _, d+1 => by simp [admit, Cond.depth, Cond.widthOk]
-  | .calledByEntry, d+1 => by simp [admit, Cond.depth, Cond.widthOk]
-  | .calledByContract _, d+1 => by simp [admit, Cond.depth, Cond.widthOk]
-  | .calledByGroup _, d+1 => by simp [admit, Cond.depth, Cond.widthOk]
-theorem admitAll_iff : ∀ (cs : List Cond) (d : Nat), admitAll cs d = true ↔ (depthList cs ≤ d ∧ widthOkList cs = true)
-  | [], d => by simp [admitAll, depthList, widthOkList]
+  | .boolean _, d+1 => by simp [admits, Cond.depth, Cond.widthOk]
+  | .scriptHash _, d+1 => by simp [admits, Cond.depth, Cond.widthOk]
+  | .group _, d+1 => by simp [admits, Cond.depth, Cond.widthOk]
+  | .calledByEntry, d+1 => by simp [admits, Cond.depth, Cond.widthOk]
+  | .calledByContract _, d+1 => by simp [admits, Cond.depth, Cond.widthOk]
+  | .calledByGroup _, d+1 => by simp [admits, Cond.depth, Cond.widthOk]
+theorem admitsAll_iff : ∀ (cs : List Cond) (d : Nat), admitsAll cs d = true ↔ (depthList cs ≤ d ∧ widthOkList cs = true)
+  | [], d => by simp [admitsAll, depthList, widthOkList]
   | c :: cs, d => by
-      simp only [admitAll, depthList, widthOkList, Bool.and_eq_true, admit_iff c d, admitAll_iff cs d, Nat.max_le]
+      simp only [admitsAll, depthList, widthOkList, Bool.and_eq_true, admits_iff c d, admitsAll_iff cs d, Nat.max_le]
       constructor
       · rintro ⟨⟨a, b⟩, c', d'⟩; exact ⟨⟨a, c'⟩, b, d'⟩
       · rintro ⟨⟨a, c'⟩, b, d'⟩; exact ⟨⟨a, b⟩, c', d'⟩
